@@ -2,7 +2,7 @@
 import json
 import sys
 
-from ctlcase import (OPEN, READ, WRITEPAT, DUMP, RETRY, ENABLE, PARAMS, GENAPI, ctl_case, model_term, parse_output, show_data,
+from ctlcase import (OPEN, CLOSE, READ, WRITEPAT, DUMP, RETRY, ENABLE, PARAMS, GENAPI, ctl_case, model_term, parse_output, show_data,
                      std_world, pattern, SBRM, SIRM)
 from vplib import Check, Rng, _clip, xhex
 
@@ -77,6 +77,11 @@ def faults_for(op, rid, rng, quick):
     for p in range(0, 6):
         out.append(("pending-x%d" % p, [5, -1, p + 1] + [0, 1] * p + [1, 0], "ok" if p < 3 else "err"))
     out.append(("pending-forever", [5, -1, 8] + [0, 1] * 8, "err"))
+    # a pending acknowledge announcing a time-out of 0 ms (a device-controlled u16): followed by the final acknowledge
+    # (must be awaited), or by nothing at all (must end with an error: a receive with time-out 0 would wait for ever)
+    out.append(("pending-timeout-0-then-ack", [5, -1, 2, 0, 0, 1, 0], "ok"))
+    out.append(("pending-timeout-0-then-nothing", [5, -1, 1, 0, 0], "err"))
+    out.append(("pending-timeout-2-then-ack", [5, -1, 2, 0, 2, 1, 0], "ok"))
     out.append(("pending-malformed", [5, -1, 2, 2, xhex(bytes([0x55, 0x33, 0x56, 0x43, 0, 0, 5, 8, 2, 0, rid & 255, rid >> 8, 0, 0])),
                 1, 0], "err"))
     return out
@@ -120,6 +125,10 @@ def scenario(fault_at, fault_toks, ops, mc=MC, ma=MA, extra_world=None, second=N
             optoks += [GENAPI]
         elif op["k"] == "retry":
             optoks += [RETRY, op["n"]]
+        elif op["k"] == "close":
+            optoks += [CLOSE]
+        elif op["k"] == "open":
+            optoks += [OPEN]
     return w, wt, optoks
 
 
@@ -216,6 +225,17 @@ def gen_cases(ck):
                     w.write(op["a"], pattern(op["n"], op["seed"]))      # the device applied the write on reception
                 exp += [("ok", None), ("any",)]
                 add("retry-count-%d/pending-x%d/%s" % (rc, p, op["k"]), w, wt, optoks, exp, retry=max(rc + 1, 3))
+    # the configured retry count is the USER's setting: it survives close / reopen of the handle (the second open
+    # performs 5 bootstrap transactions, the ABRM capability being cached) - same verdicts as above after a reopen
+    for rc in (1, 2, 5):          # (with a count of 0 the code receives nothing at all, so no open can succeed)
+        for p in (0, 1, 2, 3, 4, 5, 6):
+            op = dict(k="r", a=DATA + 7, n=20)
+            ftoks = [5, -1, p + 1] + [0, 1] * p + [1, 0]
+            w, wt, optoks = scenario(11, ftoks, [dict(k="retry", n=rc), dict(k="close"), dict(k="open"), op])
+            data = show_data(w.read(op["a"], op["n"]))
+            exp = [("ok", None), ("ok", None), ("ok", None), ("ok", None),
+                   ("ok", data) if p < rc else ("err",) if p > rc else ("ok-or-err", data)]
+            add("retry-count-%d/reopen/pending-x%d" % (rc, p), w, wt, optoks, exp, retry=max(rc + 1, 3))
     # faults at every transaction of open (6) and of a 3-chunk read and a 3-chunk write
     kinds = [("recv-err", [5, -1, 1, 3, 0]), ("timeout", [5, -1, 0]), ("status", [5, -1, 1, 1, 1, 1, 4, 0x8006]),
              ("short", [5, -1, 1, 1, 1, 2, 13]), ("wrong-id", [5, -1, 1, 1, 1, 1, 10, 0x7777]),
@@ -346,7 +366,7 @@ def main():
         if r.get("kind") != "case":
             print(json.dumps(r, indent=1)[:4000])
             sys.exit(0)
-        if r.get("ckind") in ("enum", "chan"):      # USB layer cases (tools/usbenum.py)
+        if r.get("ckind") in ("enum", "chan") or "end to end" in (r.get("family") or ""):   # USB layer (tools/usbenum.py)
             import usbenum
             usbenum.replay(ck, r)
         from vplib import Case
@@ -378,4 +398,5 @@ def main():
     # over a scripted fake libusb (rust/h_usb) vs model/UsbEnum.v, see tools/usbenum.py
     import usbenum
     usbenum.run_enum(ck)
+    usbenum.run_ctlreal(ck, cases, impl, predicate, nontrivial, label="fault plans end to end")
     ck.finish()
